@@ -42,7 +42,7 @@ theorem not_mem_pathHandles_cons {h : Nat} {fr : Frame} {rest : List Frame}
   simp only [pathHandles, List.mem_append, List.mem_cons, not_or] at hp
   exact ⟨hp.1, fun e => hp.2.1 e.symm, hp.2.2.1, hp.2.2.2⟩
 
-theorem find?_self (h : Nat) (k : HTree) (hk : k.handle = h) : find? h k = some k := by
+theorem fi_find?_self (h : Nat) (k : HTree) (hk : k.handle = h) : find? h k = some k := by
   cases k with
   | node h' v ks => simp only [node_handle] at hk; rw [find?, if_pos hk]
 
@@ -51,7 +51,7 @@ theorem findList?_plug (h : Nat) (path : List Frame) (l : List HTree) (k : HTree
     findList? h (plug path (l ++ k :: r)) = some k := by
   induction path with
   | nil =>
-    rw [plug_nil, findList?_append_of_not_mem h l _ hl, findList?_cons, find?_self h k hk]; rfl
+    rw [plug_nil, findList?_append_of_not_mem h l _ hl, findList?_cons, fi_find?_self h k hk]; rfl
   | cons fr rest ih =>
     obtain ⟨h1, h2, h3, _⟩ := not_mem_pathHandles_cons hp
     rw [plug_cons, findList?_append_of_not_mem h _ _ h1, findList?_cons, find?, if_neg h2, ih h3]
@@ -72,7 +72,7 @@ theorem replaceKids_plug (h : Nat) (g : HTree → List HTree) (path : List Frame
     rfl
 
 /-- Below the roots `map (replaceBelow h g)` is `replaceKids h g` when no root has handle `h`. -/
-theorem map_replaceBelow_eq (h : Nat) (g : HTree → List HTree) (ks : List HTree)
+theorem fi_map_replaceBelow_eq (h : Nat) (g : HTree → List HTree) (ks : List HTree)
     (hn : ∀ k ∈ ks, k.handle ≠ h) : ks.map (replaceBelow h g) = replaceKids h g ks := by
   induction ks with
   | nil => simp [replaceKids]
@@ -84,8 +84,8 @@ theorem handle_ne_of_not_mem_handlesList {h : Nat} {ks : List HTree} (hm : h ∉
   intro k hk e
   apply hm
   obtain ⟨a, b, rfl⟩ := List.append_of_mem hk
-  simp only [handlesList_append, handlesList_cons, List.mem_append]
-  exact Or.inr (Or.inl (e ▸ handle_mem_handles k))
+  simp only [fi_handlesList_append, handlesList_cons, List.mem_append]
+  exact Or.inr (Or.inl (e ▸ fi_handle_mem_handles k))
 
 theorem root_handle_ne_of_plug_cons {h : Nat} {fr : Frame} {rest : List Frame} {ks : List HTree}
     (hp : h ∉ pathHandles (fr :: rest)) : ∀ k ∈ plug (fr :: rest) ks, k.handle ≠ h := by
@@ -142,7 +142,7 @@ theorem findSome?_ctxBelow_append_of_not_mem (h : Nat) (l rest : List HTree) (hm
   | cons k ks ih =>
     simp only [handlesList_cons, List.mem_append, not_or] at hm
     have hkids : h ∉ handlesList k.kids := by
-      intro hc; apply hm.1; rw [handles_eq]; exact List.mem_cons_of_mem _ hc
+      intro hc; apply hm.1; rw [fi_handles_eq]; exact List.mem_cons_of_mem _ hc
     rw [List.cons_append, List.findSome?_cons, ctxBelow_of_not_mem h k hkids]
     exact ih hm.2
 
@@ -170,7 +170,7 @@ theorem ctxRoots_plug (h : Nat) (path : List Frame) (fr : Frame)
     rw [List.cons_append, plug_cons, findSome?_ctxBelow_append_of_not_mem h _ _ h1,
       List.findSome?_cons, ctxBelow, ctxKids_plug h fr0.h [] rest fr l k r hk h3 hl]
 
-theorem ancestorsOf_self (h : Nat) (k : HTree) (hk : k.handle = h) : ancestorsOf h k = some [h] := by
+theorem fi_ancestorsOf_self (h : Nat) (k : HTree) (hk : k.handle = h) : ancestorsOf h k = some [h] := by
   cases k with
   | node h' v ks => simp only [node_handle] at hk; rw [ancestorsOf, if_pos hk, hk]
 
@@ -180,7 +180,7 @@ theorem ancestorsOfList_plug (h : Nat) (path : List Frame) (l : List HTree) (k :
   induction path with
   | nil =>
     rw [plug_nil, ancestorsOfList_append_of_not_mem h l _ hl, ancestorsOfList_cons,
-      ancestorsOf_self h k hk]
+      fi_ancestorsOf_self h k hk]
     rfl
   | cons fr rest ih =>
     obtain ⟨h1, h2, h3, _⟩ := not_mem_pathHandles_cons hp
